@@ -27,6 +27,9 @@ type vLink struct {
 	hold    bool
 	held    [][]byte
 	monitor func(b []byte)
+	// dropFrom/dropTo: packets number dropFrom..dropTo-1 (counted from the
+	// moment the link is armed) are dropped, whatever they are
+	dropFrom, dropTo, armedSent int
 	// ghost log of everything put on the wire (for monitors)
 	wire [][]byte
 }
@@ -56,6 +59,14 @@ func (l *vLink) send(ctx context.Context, b []byte) error {
 		return nil
 	}
 	fate := 0
+	if l.armed {
+		if l.armedSent >= l.dropFrom && l.armedSent < l.dropTo {
+			l.armedSent++
+			l.faulty++
+			return nil
+		}
+		l.armedSent++
+	}
 	if l.armed && l.budget > 0 {
 		l.budget--
 		fate = vIntRange("fate_"+l.name, 0, 2)
